@@ -148,3 +148,58 @@ pub fn generation_survives(doc_json: &str, cfg: &Cfg, secs: u64) -> Result<(), S
         Some(st) => match st.signal() { Some(sig) => Err(format!("killed by signal {sig} (stack overflow / abort)")), None => Ok(()) },
     }
 }
+
+#[derive(clap::Parser)]
+struct Cli {
+    #[command(flatten)]
+    generate: libninja::command::Generate,
+}
+
+/// `lnv child-cli <libninja gen arguments>`: the real `Generate::run` (argument parsing, `read_spec` by file
+/// extension, extraction, generation) in this process; exit status 0 on success, 3 on a reported error.
+/// A panic unwinds to the default handler (exit status 101), a stack overflow kills the process with a signal.
+pub fn child_cli(args: &[String]) -> i32 {
+    use clap::Parser;
+    let mut argv = vec!["libninja-gen".to_string()];
+    argv.extend(args.iter().cloned());
+    let cli = match Cli::try_parse_from(argv) { Ok(c) => c, Err(e) => { eprintln!("{e}"); return 2; } };
+    match cli.generate.run() {
+        Ok(()) => 0,
+        Err(e) => { eprintln!("error: {e}"); 3 }
+    }
+}
+
+pub struct CliRun { pub status: String, pub stderr: String }
+
+/// Runs `child-cli` in a child process with a working directory and a timeout.
+pub fn run_cli(cwd: &Path, spec: &str, dest: &str, cfg: &Cfg, secs: u64) -> CliRun {
+    let exe = std::env::current_exe().unwrap();
+    let mut cmd = std::process::Command::new(exe);
+    if cfg.examples {
+        // the command line as the `libninja gen` binary receives it (`--examples` is a set-true flag whose default is true)
+        cmd.arg("child-cli").arg("--output-dir").arg(dest);
+        for d in &cfg.derives { cmd.arg(format!("--derive={d}")); }
+        cmd.arg("--").arg(&cfg.name).arg(spec);
+    } else {
+        // examples off is only reachable through the library API: the harness's mirror of `Generate::run`
+        cmd.arg("child-gen").arg(spec).arg(dest).arg(&cfg.name).arg("false").arg(cfg.derives.join("\u{1f}"));
+    }
+    let errf = fresh_dir("clierr").join("stderr");
+    let child = cmd.current_dir(cwd).stdout(std::process::Stdio::null()).stderr(std::fs::File::create(&errf).unwrap()).spawn();
+    let Ok(mut child) = child else { return CliRun { status: "spawn-failed".into(), stderr: String::new() } };
+    let t0 = std::time::Instant::now();
+    let status = loop {
+        match child.try_wait() {
+            Ok(Some(st)) => break Some(st),
+            Ok(None) => { if t0.elapsed().as_secs() >= secs { let _ = child.kill(); let _ = child.wait(); break None; } std::thread::sleep(std::time::Duration::from_millis(5)); }
+            Err(_) => break None,
+        }
+    };
+    let stderr = std::fs::read_to_string(&errf).unwrap_or_default();
+    let _ = std::fs::remove_dir_all(errf.parent().unwrap());
+    use std::os::unix::process::ExitStatusExt;
+    let status = match status { None => "timeout".to_string(), Some(st) => match st.signal() { Some(sig) => format!("signal {sig}"), None => format!("exit {}", st.code().unwrap_or(-1)) } };
+    // keep the tail: the panic message is printed last
+    let tail: String = { let n = stderr.len(); let mut i = n.saturating_sub(1500); while i < n && !stderr.is_char_boundary(i) { i += 1; } stderr[i..].to_string() };
+    CliRun { status, stderr: tail }
+}
